@@ -529,4 +529,77 @@ leaves, an empty one into nothing (the code agrees: `dict_to_paths((), {'a': {}}
 theorem dictToPaths_pathsToDict_dict_value_witness :
     (do let d ← pathsToDict [(["a"], .dict [])]; pure (dictToPaths [] d)) = .ok [] := by rfl
 
+private theorem goList_append (r : Path) (a b : KVs) :
+    dictToPaths.goList r (a ++ b) = dictToPaths.goList r a ++ dictToPaths.goList r b := by
+  induction a with
+  | nil => rfl
+  | cons kv rest ih => obtain ⟨k, v⟩ := kv; simp [dictToPaths.goList, ih]
+
+/-- a path whose first key is new lands behind everything the dictionary holds -/
+private theorem assocPath_fresh (kvs : KVs) (k : String) (rest : Path) (v : Val)
+    (hv : ∀ kvs, v ≠ .dict kvs) (hk : k ∉ KV.keys kvs) :
+    ∃ c, assocPath (.dict kvs) (k :: rest) v = .ok (.dict (kvs ++ [(k, c)])) ∧
+      ∀ r, dictToPaths r c = [(r ++ rest, v)] := by
+  cases rest with
+  | nil =>
+    refine ⟨v, by simp [assocPath, set_append k v kvs hk], ?_⟩
+    intro r; simp [dictToPaths_leaf _ v hv]
+  | cons k2 rest2 =>
+    obtain ⟨c, hc, -, hd⟩ := dictToPaths_pathsToDict_single_partial (k2 :: rest2) (by simp) v hv
+    simp [pathsToDict, List.foldlM] at hc
+    refine ⟨c, ?_, hd⟩
+    simp [assocPath, lookup_none_of_not_mem k kvs hk, hc, set_append k c kvs hk]
+
+private theorem fold_fresh (pl : List (Path × Val)) :
+    ∀ (kvs : KVs), (∀ pv ∈ pl, pv.1 ≠ [] ∧ ∀ kvs, pv.2 ≠ .dict kvs) →
+      ((KV.keys kvs) ++ pl.map (fun pv => pv.1.headD "")).Nodup →
+      ∃ kvs', pl.foldlM (fun d (pv : Path × Val) => assocPath d pv.1 pv.2) (Val.dict kvs) = .ok (.dict kvs') ∧
+        ∀ r, dictToPaths.goList r kvs' = dictToPaths.goList r kvs ++ pl.map (fun pv => (r ++ pv.1, pv.2)) := by
+  induction pl with
+  | nil => intro kvs _ _; exact ⟨kvs, rfl, by simp⟩
+  | cons pv rest ih =>
+    intro kvs hall hnd
+    obtain ⟨p, v⟩ := pv
+    have hp := (hall (p, v) (by simp)).1
+    have hv := (hall (p, v) (by simp)).2
+    cases p with
+    | nil => exact absurd rfl hp
+    | cons k ps =>
+      simp only at hv
+      have hk : k ∉ KV.keys kvs := by
+        intro hmem
+        have := List.nodup_append.mp hnd
+        exact this.2.2 k hmem k (by simp) rfl
+      obtain ⟨c, hc, hd⟩ := assocPath_fresh kvs k ps v hv hk
+      have hnd' : ((KV.keys (kvs ++ [(k, c)])) ++ rest.map (fun pv => pv.1.headD "")).Nodup := by
+        simpa [KV.keys, List.append_assoc] using hnd
+      obtain ⟨kvs', hf, hg⟩ := ih (kvs ++ [(k, c)]) (fun pv h => hall pv (by simp [h])) hnd'
+      refine ⟨kvs', ?_, ?_⟩
+      · simp [List.foldlM, hc]; exact hf
+      · intro r
+        rw [hg r, goList_append]
+        simp [dictToPaths.goList, hd, List.append_assoc]
+
+/-- **The converse inverse law, any number of paths with pairwise distinct first keys** (`_partial`:
+paths sharing a first key are grouped under it by `paths_to_dict`, so the list comes back permuted —
+that general statement rests on the oracle): for every list of non-empty paths whose first keys are
+pairwise distinct, carrying non-dictionary values, `paths_to_dict` succeeds and `dict_to_paths`, from
+any root, returns the list itself — every path, every value, in the order given. -/
+theorem dictToPaths_pathsToDict_distinct_heads_partial (pl : List (Path × Val))
+    (hall : ∀ pv ∈ pl, pv.1 ≠ [] ∧ ∀ kvs, pv.2 ≠ .dict kvs)
+    (hnd : (pl.map (fun pv => pv.1.headD "")).Nodup) :
+    ∃ d, pathsToDict pl = .ok d ∧ ∀ r, dictToPaths r d = pl.map (fun pv => (r ++ pv.1, pv.2)) := by
+  obtain ⟨kvs', hf, hg⟩ := fold_fresh pl [] hall (by simpa [KV.keys] using hnd)
+  exact ⟨.dict kvs', hf, fun r => by simp [dictToPaths, hg r, dictToPaths.goList]⟩
+
+example : (do let d ← pathsToDict [(["a", "b"], .int 1), (["c"], .str "x"), (["d", "e", "f"], .none)]
+              pure (dictToPaths [] d)) =
+    .ok [(["a", "b"], .int 1), (["c"], .str "x"), (["d", "e", "f"], .none)] := by rfl
+
+/-- witness that the hypothesis matters for the *order*: paths sharing a first key are grouped -/
+theorem dictToPaths_pathsToDict_shared_head_regroups :
+    (do let d ← pathsToDict [(["a", "b"], .int 1), (["c"], .int 2), (["a", "d"], .int 3)]
+        pure (dictToPaths [] d)) =
+    .ok [(["a", "b"], .int 1), (["a", "d"], .int 3), (["c"], .int 2)] := by rfl
+
 end VivProps.C17
